@@ -192,10 +192,13 @@ where
             fail!("C14/undocumented-error", "second construction from the same data failed");
         };
         let mut snap = c.pos();
+        let mut snap_i = 0usize;
         let mut refused = 0u64;
+        let mut rewinds = 0u64;
         let mut got: Vec<usize> = Vec::new();
         let mut ended = false;
-        for (i, mdl) in models.iter().enumerate() {
+        let mut i = 0usize;
+        while i < models.len() {
             if rng.chance(1, 4) {
                 let here = c.pos();
                 if here.0.compressed < snap.0.compressed {
@@ -204,11 +207,24 @@ where
                         Err(()) => refused += 1,
                         Ok(()) => fail!("C14/seek-back-accepted", "seek from compressed position {:?} back to {:?} succeeded on a Vec", here.0.compressed, snap.0.compressed),
                     }
+                    // that snapshot is out of reach for good: take a new one here
+                    snap = here;
+                    snap_i = i;
+                } else if here.0 == snap.0 && i > snap_i && rewinds < 3 && rng.bool() {
+                    // same backend positions (no word was consumed or flushed since the snapshot),
+                    // other heads: this seek is possible and must rewind to the snapshot's chunk
+                    if c.seek(snap).is_err() {
+                        fail!("C14/seek-within-word-refused", "seek back to a snapshot with identical backend positions was refused");
+                    }
+                    rewinds += 1;
+                    got.truncate(snap_i);
+                    i = snap_i;
                 } else if rng.bool() {
                     snap = here;
+                    snap_i = i;
                 }
             }
-            match c.decode_symbol(*mdl) {
+            match c.decode_symbol(models[i]) {
                 Ok(sy) => got.push(sy),
                 Err(CoderError::Frontend(DecoderFrontendError::OutOfCompressedData)) => {
                     ended = true;
@@ -216,7 +232,9 @@ where
                 }
                 Err(e) => fail!("C14/undocumented-error", "decode #{i} returned {e:?}"),
             }
+            i += 1;
         }
+        run.count("seeks_back_within_a_word", rewinds);
         if got != base {
             let k = (0..got.len().min(base.len())).find(|&i| got[i] != base[i]);
             fail!("C14/refused-seek-shifts-chunks", "with {refused} refused seeks in between, {} symbols were decoded instead of {m}; first difference at {k:?}", got.len());
@@ -331,7 +349,104 @@ where
     run.describe(|| format!("{desc} :: {m} chunks, {perturbed} model replacements, {flips_done} bit flips"));
 }
 
+/// "... never whether or when the coder runs out of data", across precision changes: the
+/// compressed side is a bit budget. B = the number of 1-bit chunks a fresh coder yields; with
+/// any schedule of precisions the coder must deliver symbols exactly as long as the bits
+/// consumed so far plus the next precision fit into B (bits left over in the head when the
+/// precision changes must not be lost or invented).
+fn budget_case<W, S, Pr1, const P1: usize, Pr2, const P2: usize>(run: &mut Run, rng: &mut Rng)
+where
+    W: Num + Into<S> + AsPrimitive<Pr1> + AsPrimitive<Pr2>,
+    S: Num + AsPrimitive<W>,
+    Pr1: Num + Into<W>,
+    Pr2: Num + Into<W>,
+{
+    run.count("bit_budget_cases", 1);
+    run.h(7 << 56 | W::NBITS as u64 * 1000 + S::NBITS as u64 ^ (P1 as u64) << 20 ^ (P2 as u64) << 28);
+    let data: Vec<W> = gen_chain_data(rng, if run.small { 8 } else { 24 }, false);
+    for x in &data {
+        run.h128(x.as_u());
+    }
+    let du: Vec<u128> = data.iter().map(|x| x.as_u()).collect();
+    let desc = format!("ChainCoder<{},{}> from_binary data {:?}, precisions {P1} -> {P2} -> {P1}", W::NAME, S::NAME, du);
+    run.note(|| desc.clone());
+    let Some(c0) = build::<W, S, P1>(&data, false) else {
+        run.count("construction_refused", 1);
+        return;
+    };
+    // the budget, measured bit by bit on a copy
+    let Ok(mut cb) = c0.clone().change_precision::<1>() else {
+        run.count("budget_probe_refused", 1);
+        return;
+    };
+    let mut budget = 0usize;
+    while budget < 100_000 {
+        match cb.decode_symbol(IdentityModel::<Pr1, 1>::new()) {
+            Ok(_) => budget += 1,
+            Err(CoderError::Frontend(DecoderFrontendError::OutOfCompressedData)) => break,
+            Err(_) => return,
+        }
+    }
+    macro_rules! fail {
+        ($($arg:tt)*) => {{
+            run.violation("locality", "C14/bit-budget", format!("{desc} :: budget {budget} bits :: {}", format!($($arg)*)));
+            return;
+        }};
+    }
+    let mut consumed = 0usize;
+    macro_rules! phase {
+        ($c:ident, $Pr:ty, $P:expr, $k:expr, $name:expr) => {
+            for j in 0..$k {
+                match $c.decode_symbol(IdentityModel::<$Pr, $P>::new()) {
+                    Ok(_) => {
+                        consumed += $P;
+                        if consumed > budget {
+                            fail!("{}: symbol #{j} at precision {} was delivered although only {} of the {budget} bits were left", $name, $P, budget + $P - consumed);
+                        }
+                    }
+                    Err(CoderError::Frontend(DecoderFrontendError::OutOfCompressedData)) => {
+                        if budget - consumed >= $P {
+                            fail!("{}: out of data before symbol #{j} at precision {} although {} bits are left ({consumed} consumed)", $name, $P, budget - consumed);
+                        }
+                        run.count("bit_budget_exhaustions_checked", 1);
+                        run.nontrivial();
+                        return;
+                    }
+                    Err(e) => fail!("{}: symbol #{j} returned {e:?}", $name),
+                }
+            }
+        };
+    }
+    let (k1, k2) = (rng.usize_in(0, 7), rng.usize_in(1, 5));
+    let mut c = c0;
+    phase!(c, Pr1, P1, k1, "first phase");
+    let Ok(mut c) = c.change_precision::<P2>() else {
+        run.count("precision_change_refused", 1);
+        return;
+    };
+    phase!(c, Pr2, P2, k2, "second phase");
+    let Ok(mut c) = c.change_precision::<P1>() else {
+        run.count("precision_change_refused", 1);
+        return;
+    };
+    phase!(c, Pr1, P1, 100_000usize, "third phase");
+}
+
 pub fn case(run: &mut Run, rng: &mut Rng) {
+    if rng.chance(1, 6) {
+        let combos: &[fn(&mut Run, &mut Rng)] = &[
+            budget_case::<u8, u16, u8, 3, u8, 8>,
+            budget_case::<u8, u16, u8, 8, u8, 5>,
+            budget_case::<u8, u32, u8, 5, u8, 8>,
+            budget_case::<u16, u32, u8, 5, u16, 16>,
+            budget_case::<u16, u32, u16, 12, u8, 7>,
+            budget_case::<u16, u64, u16, 9, u16, 16>,
+            budget_case::<u32, u64, u16, 12, u32, 32>,
+            budget_case::<u32, u64, u32, 24, u32, 31>,
+        ];
+        let k = rng.below(combos.len() as u64) as usize;
+        return combos[k](run, rng);
+    }
     let combos: &[fn(&mut Run, &mut Rng)] = &[
         combo::<u8, u16, u8, 8>,
         combo::<u8, u16, u8, 3>,
